@@ -105,10 +105,10 @@ def spec_indeterminate(el):
 def run(tier, seed):
     ck = Check(PID, tier, seed)
     rnd = ck.rnd
-    ck.proof = lib.proof_step('props/C17.v', matchcheck.MATCH_CONE)
+    ck.proof = lib.proof_step('props/C17.v', matchcheck.MATCH_CONE + ['DirFacts.v'])
     ck.broken += ck.proof['broken']
     if not ck.proof['driver_ok']:
-        return ck.finish(rule='driver unavailable')
+        ck.notes['driver'] = 'unavailable: model-side runs skipped, searching with the implementation-side oracles only'
     import soupsieve as sv
     n = 150 if tier == 'quick' else 3000
     scs = []
